@@ -609,8 +609,16 @@ class Gen:
                 env2 = dict(env2)
                 env2[v2] = 'num'
             return ('arrcomp', self.gen(et, env2, d - 1, inobj), specs)
-        if x < 0.85:
+        if x < 0.80:
             return ('binary', 'add', self.gen_arr(env, d - 1, inobj, elem), self.gen_arr(env, d - 1, inobj, elem))
+        if x < 0.87 and self.allow_std:
+            # deferred callback applications: one pending call per element
+            fty = r.choice(['func1', 'func1', 'func1', 'func2', 'any'])
+            if r.random() < 0.6:
+                src = self.gen_arr(env, d - 1, inobj, elem='num') if r.random() < 0.75 else self.gen(r.choice(['str', 'str', 'any']), env, d - 1, inobj)
+                return ('std', 'map', [self.gen(fty, env, d - 1, inobj), src])
+            n = ('num', float(r.choice([0, 1, 2, 3, 3, 5, -1, 2.5]))) if r.random() < 0.8 else self.gen('num', env, d - 2, inobj)
+            return ('std', 'makeArray', [n, self.gen(fty, env, d - 1, inobj)])
         if x < 0.95:
             return ('slice', self.gen_arr(env, d - 1, inobj, elem), self.opt_idx(env, d, inobj), self.opt_idx(env, d, inobj),
                     self.opt_step(env, d, inobj))
